@@ -135,6 +135,19 @@ def check(spec, ctx):
     _verify("(r >> %d) << %d" % (k, k), r5, spec, word, denot0, total)
     r6 = sut(lambda: r << k)
     _verify("r << %d" % k, r6, spec, word, denot0, total - k)
+    if spec.get("edit"):
+        # the record is edited in place after it has been rotated once; the
+        # next rotation by the same amount must see the record as it is now
+        import copy
+        late = {"type": "misc_feature", "parts": [[0, 1, 1]], "quals": {"label": ["late"]}}
+        r.features.append(rec.make_features([late])[0])
+        spec2 = copy.deepcopy(spec)
+        spec2["feats"] = list(spec2.get("feats") or []) + [late]
+        denot2 = dict(denot0)
+        denot2["late"] = rec.denote_feature(r.features[-1], dna.rot(word, total))
+        r7 = sut(lambda: r >> k)
+        _verify("r >> %d after adding a feature to r" % k, r7, spec2, word, denot2, total + k)
+        r.features.pop()
     moved = (total + k) % n != 0
     has = bool(spec.get("feats")) or bool(spec.get("tracks"))
     classes = []
@@ -259,6 +272,8 @@ def _specs(draw):
         spec["tracks"] = {"q": "index", "s": "self"}
     if draw(st.booleans()):
         spec["pre"] = draw(st.lists(st.integers(-n, 2 * n), min_size=1, max_size=3))
+    if draw(st.integers(0, 3)) == 0:
+        spec["edit"] = True
     if draw(st.booleans()):
         spec["id"] = draw(st.sampled_from(["pX", "plasmid_1"]))
         spec["dbxrefs"] = ["db:1"]
